@@ -163,7 +163,10 @@ def check_shapes(eng, run):
               "lowlevel.api_sync.endpoints.stream:_BufferedReceiverImpl.receive"):
         fn = db.fn(q)
         last = fn.node.body[-1]
-        ok = isinstance(last, ast.Raise) and "ETIMEDOUT" in ast.unparse(last)
+        # after the retry loop every path raises, and one of those raises is ETIMEDOUT (the other may be the end-of-stream error, in either order)
+        loops_ = [i for i, st in enumerate(fn.node.body) if isinstance(st, (ast.While, ast.For)) or any(isinstance(x, (ast.While, ast.For)) for x in ast.walk(st))]
+        tail = fn.node.body[loops_[-1] + 1:] if loops_ else fn.node.body[-2:]
+        ok = isinstance(last, ast.Raise) and any(isinstance(r, ast.Raise) and "ETIMEDOUT" in ast.unparse(r) for st in tail for r in ast.walk(st))
         if not ok:
             run.finding("C11.err", fn, last, "an exhausted budget no longer surfaces as ETIMEDOUT (TimeoutError) at the end of the retry loop")
         run.ob("C11.err", fn.short, ok)
